@@ -38,7 +38,9 @@ func (d *dependencyFurtherMatchingPostProcessors) PostProcessProperties(properti
 				if prop.IsRequired() {
 					return nil, errors.WithMessagef(err, "field '%s' is required but not found any components", prop.String())
 				}
-				return nil, nil
+				//an optional point without candidates stays empty; the remaining fields still have to be filtered
+				prop.Injects = nil
+				continue
 			}
 			return nil, err
 		}
@@ -58,6 +60,17 @@ func filterDependencies(n *component_definition.Property, metas []*component_def
 	})
 	if len(result) == 0 {
 		return nil, errors.Errorf("inject '%s' not found available components", n)
+	}
+	//remove metas that can not be assigned to the field, e.g. a component found by name that has another type
+	var elemType = n.Type
+	if elemType.Kind() == reflect.Slice || elemType.Kind() == reflect.Array {
+		elemType = elemType.Elem()
+	}
+	result = fas.Filter(result, func(m *component_definition.Meta) bool {
+		return m.Type.AssignableTo(elemType)
+	})
+	if len(result) == 0 {
+		return nil, errors.Errorf("inject '%s' not found components assignable to %s", n, elemType.String())
 	}
 	//filter qualifier
 	if qualifierName, isQualifier := n.Args().Find(component_definition.ArgQualifier); isQualifier {
